@@ -8,14 +8,20 @@
    Terminal states are printed as cases (the program, and - diagnostic only - whether the VM model
    agrees with the reference and the anomalous branch it took). *)
 EXTENDS PanicFlow, TLC, Json
-CONSTANTS MaxStmts,      \* statements per program
-          MaxDepth,      \* nesting of plain calls (deferred calls may go one deeper)
-          Forms,         \* statement kinds the environment may use
-          MaxNative      \* at most this many directly deferred native calls per program
-VARIABLES prog, r, left, np, nn, phase, v
-vars == <<prog, r, left, np, nn, phase, v>>
+\* Up to four bounded program spaces are explored in one run (space i is unused when Stmts_i = 0):
+\* statements per program, directly deferred native calls per program, statement kinds the environment may
+\* use; MaxDepth = nesting of plain calls (deferred calls may go one deeper).
+CONSTANTS MaxDepth, Stmts1, Native1, Forms1, Stmts2, Native2, Forms2, Stmts3, Native3, Forms3, Stmts4, Native4, Forms4
+Spaces == << <<Stmts1, MaxDepth, Native1, Forms1>>, <<Stmts2, MaxDepth, Native2, Forms2>>,
+             <<Stmts3, MaxDepth, Native3, Forms3>>, <<Stmts4, MaxDepth, Native4, Forms4>> >>
+VARIABLES space, prog, r, left, np, nn, phase, v
+vars == <<space, prog, r, left, np, nn, phase, v>>
+MaxStmts == Spaces[space][1]
+MaxNative == Spaces[space][3]
+Forms == Spaces[space][4]
 
-Init == /\ prog = << <<>> >> /\ r = RInit /\ left = MaxStmts /\ np = 0 /\ nn = 0 /\ phase = "ref" /\ v = VInit
+Init == /\ space \in {i \in 1..4 : Spaces[i][1] > 0} /\ prog = << <<>> >> /\ r = RInit /\ left = Spaces[space][1] /\ np = 0 /\ nn = 0
+        /\ phase = "ref" /\ v = VInit
 
 (* ---- the environment: append a statement at the frontier and execute it ---- *)
 AtFrontier == phase = "ref" /\ RKind(prog, r) = "return"
@@ -24,7 +30,7 @@ Add(st) == /\ AtFrontier /\ left > 0 /\ st.op \in Forms
                   p1 == [prog EXCEPT ![f] = Append(@, st)]
               IN /\ prog' = IF st.op \in {"call", "defer"} THEN Append(p1, <<>>) ELSE p1
                  /\ r' = RExec(r, st, Len(prog[f]) + 1)
-           /\ left' = left - 1 /\ UNCHANGED <<phase, v>>
+           /\ left' = left - 1 /\ UNCHANGED <<space, phase, v>>
 \* the two panic values are interchangeable: the first panic of a program is always 1
 PVals == IF np = 0 THEN {1} ELSE {1, 2}
 NatOK == nn < MaxNative
@@ -40,11 +46,11 @@ SDeferPrint == NatOK /\ Add(S("dprint", 8)) /\ nn' = nn + 1 /\ UNCHANGED np
 SDeferPanic == NatOK /\ \E k \in PVals : Add(S("dpanic", k)) /\ np' = 1 /\ nn' = nn + 1
 SDeferStop == NatOK /\ Add(S("dstop", 1)) /\ nn' = nn + 1 /\ UNCHANGED np
 SDeferFatal == NatOK /\ Add(S("dfatal", 1)) /\ nn' = nn + 1 /\ UNCHANGED np
-SClose == AtFrontier /\ r' = RReturn(r) /\ UNCHANGED <<prog, left, np, nn, phase, v>>
+SClose == AtFrontier /\ r' = RReturn(r) /\ UNCHANGED <<space, prog, left, np, nn, phase, v>>
 
 (* ---- the reference's run-time steps ---- *)
 RefRt(kind, cond) == /\ phase = "ref" /\ RKind(prog, r) = kind /\ cond /\ r' = RStep(prog, r)
-                     /\ UNCHANGED <<prog, left, np, nn, phase, v>>
+                     /\ UNCHANGED <<space, prog, left, np, nn, phase, v>>
 NextDefer == RTop(r).defers[Len(RTop(r).defers)].k
 RunDeferFn == RefRt("rundefer", NextDefer = "defer")
 RunDeferRecover == RefRt("rundefer", NextDefer = "drecover")
@@ -53,9 +59,9 @@ PopRet == RefRt("popret", TRUE)
 PopPan == RefRt("poppan", TRUE)
 
 (* ---- the VM machine on the closed program ---- *)
-StartVm == phase = "ref" /\ r.done # "no" /\ phase' = "vm" /\ UNCHANGED <<prog, r, left, np, nn, v>>
+StartVm == phase = "ref" /\ r.done # "no" /\ phase' = "vm" /\ UNCHANGED <<space, prog, r, left, np, nn, v>>
 Vm(kinds) == /\ phase = "vm" /\ VKind(prog, v) \in kinds /\ v' = VStep(prog, v)
-             /\ UNCHANGED <<prog, r, left, np, nn, phase>>
+             /\ UNCHANGED <<space, prog, r, left, np, nn, phase>>
 VmPrint == Vm({"print"})
 VmCall == Vm({"call"})
 VmDefer == Vm({"defer", "drecover"})
@@ -121,6 +127,6 @@ VmEndIsFinal == v.done # "no" => VKind(prog, v) = ""
 Terminal == phase = "vm" /\ v.done # "no"
 AgreeFlow == Flow(VObsOf(v)) = Flow(RObsOf(r))
 AgreePos == AgreeFlow /\ VObsOf(v).chain = RObsOf(r).chain
-Export == Terminal => PrintT(<<"CASE", ToJson([prog |-> prog, agree |-> AgreeFlow, agreepos |-> AgreePos, why |-> v.why,
+Export == Terminal => PrintT(<<"CASE", ToJson([space |-> space, prog |-> prog, agree |-> AgreeFlow, agreepos |-> AgreePos, why |-> v.why,
                                                  ref |-> r.done, vm |-> v.done])>>)
 =============================================================================
